@@ -798,7 +798,7 @@ def block_extent(ctx, rule='C16.block-extent'):
             return fine(e[2])
         if e[0] == 'bin' and e[1].startswith('Mul'):
             return _tree_has(e, lambda x: x[0] == 'field' and x[2] and x[2][-1] == 'pagesize')
-        if e[0] == 'call' and last_seg(strip_generics(e[1])) in ('from', 'into', 'try_into', 'unwrap', 'try_from') and e[2]:
+        if e[0] == 'call' and last_seg(strip_generics(e[1])) in ('from', 'into', 'try_into', 'unwrap', 'try_from', 'expect', 'unwrap_or_default') and e[2]:
             return fine(e[2][0])
         return False
 
